@@ -1,5 +1,5 @@
 SPECIFICATION TraceSpec
 CONSTANT P = 7
 POSTCONDITION TraceAccepted
-INVARIANT TraceInv
+INVARIANT PendingClosed
 CHECK_DEADLOCK FALSE
